@@ -337,6 +337,22 @@ class Engine:
                     model = None
             except z3.Z3Exception:
                 model = None
+        why = ""
+        candidate = None
+        if r != z3.sat and r != z3.unsat:
+            try:
+                why = s.reason_unknown()
+            except z3.Z3Exception:
+                why = "?"
+            if "quantifier" in why:
+                # the solver could not finish with the quantified facts but has a candidate model; it is kept as a
+                # *candidate* counterexample only: it counts for nothing unless it replays on the real code
+                try:
+                    cm = s.model()
+                    if self.model_ok(s, cm):
+                        candidate = cm
+                except z3.Z3Exception:
+                    candidate = None
         s.pop()
         s.set("timeout", FEAS_TIMEOUT_MS)
         dt = time.time() - t0
@@ -351,6 +367,15 @@ class Engine:
             if st2 in ("proved", "refuted"):
                 status, backend = st2, be2
         summary = None
+        if model is None and candidate is not None and status == "unknown":
+            summary = {"__candidate__": True}
+            if self.witness_fn is not None:
+                try:
+                    w = self.witness_fn(candidate)
+                    if w is not None:
+                        summary["__witness__"] = w
+                except Exception as e:
+                    summary["__witness_error__"] = repr(e)[:200]
         if model is not None:
             summary = self.model_summary(model)
             if self.witness_fn is not None:
@@ -361,7 +386,8 @@ class Engine:
                 except Exception as e:      # a witness is a convenience, never a verdict
                     summary["__witness_error__"] = repr(e)[:200]
         ob = Obligation(name, status, dt, backend, model=summary,
-                        path=self.path_id, detail=detail or (str(z3.simplify(goal))[:300]), kind=kind)
+                        path=self.path_id, detail=(detail or (str(z3.simplify(goal))[:300])) +
+                        ((" [solver: unknown, %s]" % why) if status == "unknown" else ""), kind=kind)
         self.obligations.append(ob)
         self.qlog.append((name, status))
         if status == "proved":
